@@ -18,8 +18,8 @@ PROP = dict(
           'boundary, or a fixed-width / quick-macro / reversed / 32-bit / '
           'sign-helper entry point; distinct by hash of (family, entry point, '
           'value, width selector)'),
-    quick=dict(configs=['asan', 'rel', 'dbg'], cases=3000000, maxlen=96),
-    thorough=dict(configs=['asan', 'rel', 'dbg'], cases=40000000, maxlen=96,
+    quick=dict(configs=['asan', 'rel', 'dbg', 'native'], cases=3000000, maxlen=96),
+    thorough=dict(configs=['asan', 'rel', 'dbg', 'native'], cases=40000000, maxlen=96,
                   fuzz_s=60, setmax=1 << 23,
                   extra_sweeps=[dict(name='u32', parts=16, configs=['rel'])]),
     required_classes=['signed', 'tagged.len9', 'splitFull16.len9',
